@@ -639,3 +639,31 @@ func c44Extra(r *Run) error {
 	}
 	return nil
 }
+
+// c36Extra: the only functions of langlint that change the file system are rewriteFile and removeLeftovers (whose
+// calls carry the ghost file-system model); everything else in the package only reads.
+func c36Extra(r *Run) error {
+	lp := modRoot + "tools/langlint"
+	readOnly := map[string]bool{"ReadFile": true, "ReadDir": true, "Stat": true, "Lstat": true, "Getwd": true, "Exit": true, "Getenv": true, "LookupEnv": true, "IsNotExist": true, "IsExist": true, "Open": true, "Readlink": true, "Executable": true, "Getpid": true, "UserHomeDir": true, "Hostname": true, "Environ": true, "ExpandEnv": true, "TempDir": true}
+	sites := r.pkgCallsInto(lp, "os")
+	var bad []string
+	n := 0
+	for _, s := range sites {
+		callee := s.Func[strings.LastIndex(s.Func, " -> ")+4:]
+		encl := s.Func[:strings.LastIndex(s.Func, " -> ")]
+		name := callee[strings.LastIndex(callee, ".")+1:]
+		if strings.Contains(callee, "(*os.File).") {
+			if name == "Close" || name == "Name" || name == "Read" || name == "Stat" || name == "Fd" {
+				continue
+			}
+		} else if readOnly[name] {
+			continue
+		}
+		n++
+		if encl != lp+".rewriteFile" && encl != lp+".removeLeftovers" {
+			bad = append(bad, s.Func+" at "+s.Pos)
+		}
+	}
+	r.table("C36/file-system-writers", len(bad) == 0 && n > 0, "every call of langlint that can change the file system is in rewriteFile or removeLeftovers", fmt.Sprintf("%d changing calls; elsewhere: %v", n, bad))
+	return nil
+}
